@@ -565,6 +565,14 @@ def gen_prox_line(rng):
             tx, ty = rng.randrange(w), rng.randrange(h)
             near_x[j], near_y[j] = tx, ty
             prox[j] = abs(xs[ty, tx] - xs[line_id, j]) + abs(ys[ty, tx] - ys[line_id, j])
+    if rng.random() < 0.08:
+        # malformed but accepted: a remembered index other than -1 that is negative wraps around once (numba's index
+        # normalisation = ILang's `normIdx`); only where the wrapped index exists
+        j = rng.randrange(w)
+        if rng.random() < 0.5 and w >= 2:
+            pan_x[j], pan_y[j] = -2, rng.randrange(h)
+        elif h >= 2:
+            pan_x[j], pan_y[j] = rng.randrange(w), -2
     md = rng.choice([INF, INF, 1.0, 2.0, 3.0, 5.0, 8.0, 0.0, 2.5])
     return dict(src=src.tolist(), xs=xs.tolist(), ys=ys.tolist(), pan_x=pan_x.tolist(), pan_y=pan_y.tolist(),
                 fwd=rng.random() < 0.5, line_id=line_id, w=w, md=md, prox=prox.tolist(),
